@@ -23,7 +23,7 @@ ASSUMPTIONS = [
     "h5py returns some big-endian stored types in native order; bytes are compared after a pure byte swap",
 ]
 FLOORS = {"nontrivial": 0.25, "nonms": 0.10, "bigendian": 0.05, "cplxint": 0.05, "multisub": 0.05,
-          "filter": 0.05, "cpath": 0.05}
+          "filter": 0.05, "cpath": 0.05, "start-inexact-in-double": 0.03}
 
 
 def budget(tier):
@@ -161,6 +161,8 @@ def classify(case, m, res):
         # sample times not aligned to milliseconds <=> (k*d*1000) % n != 0 for some k <=> n does not divide d*1000
         if (cfg["d"] * 1000) % cfg["n"] != 0:
             res.cls("nonms")
+    if float(cfg["start"]) != cfg["start"]:
+        res.cls("start-inexact-in-double")
     if cfg["order"] == ">" and cfg["size"] > 1:
         res.cls("bigendian")
     if cfg["cplx"] and cfg["kind"] != "f":
